@@ -277,7 +277,7 @@ func (x *Exec) sortOf(t types.Type) (string, bool) {
 	if t == mathInt {
 		return sInt, true
 	}
-	switch u := t.Underlying().(type) {
+	switch u := under(t).(type) {
 	case *types.Basic:
 		switch {
 		case u.Info()&types.IsBoolean != 0:
@@ -338,7 +338,7 @@ func isSigned(t types.Type) bool {
 	if t == nil {
 		return true
 	}
-	if b, ok := t.Underlying().(*types.Basic); ok {
+	if b, ok := under(t).(*types.Basic); ok {
 		return b.Info()&types.IsUnsigned == 0
 	}
 	return false
@@ -364,7 +364,7 @@ func structName(t types.Type) string {
 
 func (st *State) freshVal(t types.Type, hint string) Val {
 	x := st.x
-	switch u := t.Underlying().(type) {
+	switch u := under(t).(type) {
 	case *types.Struct:
 		if _, isTP := t.(*types.TypeParam); !isTP {
 			sv := &StructV{T: u, Named: t, F: make([]Val, u.NumFields())}
@@ -417,7 +417,7 @@ func bv64(v uint64) Term { return Term{S: bvConst(v, 64), Sort: sBV(64)} }
 
 func (st *State) zeroVal(t types.Type) Val {
 	x := st.x
-	switch u := t.Underlying().(type) {
+	switch u := under(t).(type) {
 	case *types.Struct:
 		if _, isTP := t.(*types.TypeParam); !isTP {
 			sv := &StructV{T: u, Named: t, F: make([]Val, u.NumFields())}
@@ -540,7 +540,7 @@ func (st *State) loadField(h *heapSnap, ref Term, S *types.Struct, sn string, i 
 }
 
 func (st *State) loadAt(h *heapSnap, key string, ref Term, t types.Type, emb func() Term) Val {
-	switch u := t.Underlying().(type) {
+	switch u := under(t).(type) {
 	case *types.Struct:
 		if !isTypeParam(t) {
 			return st.loadStruct(h, emb(), u, t)
@@ -583,7 +583,7 @@ func (st *State) storeField(ref Term, S *types.Struct, sn string, i int, v Val) 
 }
 
 func (st *State) storeAt(key string, ref Term, t types.Type, v Val, emb func() Term) {
-	switch u := t.Underlying().(type) {
+	switch u := under(t).(type) {
 	case *types.Struct:
 		if !isTypeParam(t) {
 			st.storeStruct(emb(), u, t, v)
@@ -641,7 +641,7 @@ func (st *State) asTerm(v Val, t types.Type) Term {
 		return tv
 	case FieldPtr:
 		ft := tv.S.Field(tv.Idx).Type()
-		if _, ok := ft.Underlying().(*types.Struct); ok {
+		if _, ok := under(ft).(*types.Struct); ok {
 			return st.embRef(tv.SN, tv.S.Field(tv.Idx).Name(), tv.Ref)
 		}
 		panic(unsupported{"pointer to non-struct field escapes: " + tv.SN + "." + tv.S.Field(tv.Idx).Name()})
@@ -688,7 +688,7 @@ func (st *State) globalRef(g *ssa.Global) Term {
 // slice elements
 
 func (st *State) elemKeys(elem types.Type) (keys []string, sorts []string, typs []types.Type) {
-	if su, ok := elem.Underlying().(*types.Struct); ok && !isTypeParam(elem) {
+	if su, ok := under(elem).(*types.Struct); ok && !isTypeParam(elem) {
 		sn := structName(elem)
 		for i := 0; i < su.NumFields(); i++ {
 			f := su.Field(i)
@@ -702,7 +702,7 @@ func (st *State) elemKeys(elem types.Type) (keys []string, sorts []string, typs 
 		}
 		return
 	}
-	if sl, ok := elem.Underlying().(*types.Slice); ok {
+	if sl, ok := under(elem).(*types.Slice); ok {
 		// slice of slices: element is four scalars
 		_ = sl
 		base := "elem:slice_" + sanitize(elem.String())
@@ -721,7 +721,7 @@ func (st *State) elemArr(h *heapSnap, key, elSort string) Term {
 
 func (st *State) loadElem(h *heapSnap, arr, idx Term, elem types.Type) Val {
 	keys, sorts, typs := st.elemKeys(elem)
-	if su, ok := elem.Underlying().(*types.Struct); ok && !isTypeParam(elem) {
+	if su, ok := under(elem).(*types.Struct); ok && !isTypeParam(elem) {
 		sv := &StructV{T: su, Named: elem, F: make([]Val, su.NumFields())}
 		for i := range keys {
 			t := tSelect(tSelect(st.elemArr(h, keys[i], sorts[i]), arr), idx)
@@ -730,7 +730,7 @@ func (st *State) loadElem(h *heapSnap, arr, idx Term, elem types.Type) Val {
 		}
 		return sv
 	}
-	if sl, ok := elem.Underlying().(*types.Slice); ok {
+	if sl, ok := under(elem).(*types.Slice); ok {
 		g := func(i int) Term { return tSelect(tSelect(st.elemArr(h, keys[i], sorts[i]), arr), idx) }
 		s := &SliceV{Arr: g(0), Off: g(1), Len: g(2), Cap: g(3), Elem: sl.Elem()}
 		st.assumeSliceInv(s)
@@ -751,14 +751,14 @@ func (st *State) storeElem(arr, idx Term, elem types.Type, v Val) {
 		st.emit("(define-fun " + name + " () " + a.Sort + " " + tStore(a, arr, inner).S + ")")
 		st.heap[keys[i]] = Term{S: name, Sort: a.Sort}
 	}
-	if _, ok := elem.Underlying().(*types.Struct); ok && !isTypeParam(elem) {
+	if _, ok := under(elem).(*types.Struct); ok && !isTypeParam(elem) {
 		sv := v.(*StructV)
 		for i := range keys {
 			put(i, st.asTerm(sv.F[i], nil))
 		}
 		return
 	}
-	if sl, ok := elem.Underlying().(*types.Slice); ok {
+	if sl, ok := under(elem).(*types.Slice); ok {
 		s := st.asSlice(v, sl.Elem())
 		put(0, s.Arr)
 		put(1, s.Off)
@@ -821,4 +821,22 @@ func posStr(fset *token.FileSet, p token.Pos) string {
 		f = f[i+1:]
 	}
 	return fmt.Sprintf("%s:%d", f, pp.Line)
+}
+
+// under is Underlying() that sees through type parameters with a core type (e.g. S ~[]E behaves as []E).
+func under(t types.Type) types.Type {
+	if tp, ok := t.(*types.TypeParam); ok {
+		if iface, ok := tp.Constraint().Underlying().(*types.Interface); ok {
+			for i := 0; i < iface.NumEmbeddeds(); i++ {
+				switch e := iface.EmbeddedType(i).(type) {
+				case *types.Union:
+					if e.Len() == 1 {
+						return e.Term(0).Type().Underlying()
+					}
+				}
+			}
+		}
+		return t.Underlying()
+	}
+	return t.Underlying()
 }
